@@ -62,7 +62,12 @@ KROME_NONE = ["NONE", "none", "N", "N/A", "NO", ""]
 
 def krome_bound(rng, v, upper):
     if v <= 0:
-        return rng.choice(KROME_NONE)
+        # "no bound" is written as a keyword, or as a non-positive sentinel number
+        return rng.choice(KROME_NONE + (["-9999", "-1", "-1.0", "-1d0"] if v < 0 else ["0", "0.0"]))
+    if v == int(v) and v >= 10 and rng.random() < 0.25:
+        digits = str(int(v))
+        txt = f".{digits.rstrip('0')}d{len(digits)}"          # leading-point mantissa: 300 = .3d3
+        return rng.choice(["", "<", ".LT.", ".LE."] if upper else ["", ">", ".GE.", ".GT."]) + txt
     txt = rng.choice([repr(float(v)), repr(float(v)).replace("e+", "d").replace("e", "d")]) if v != int(v) else \
         rng.choice([f"{v:g}", f"{v:.1f}", f"{v:.3e}".replace("e+0", "d").replace("e+", "d"), f"{v:.2e}".replace("e+", "e")])
     op = rng.choice(["", "<", ".LT.", ".LE."] if upper else ["", ">", ".GE.", ".GT."])
@@ -238,7 +243,8 @@ def run(argv):
     # KROME bound reader vs model
     if getattr(chk, "lean_ok", False):
         from naunet.reactions.kromereaction import KROMEReaction
-        vals = KROME_NONE + [">5.5e3", ".LE.1d4", ".GE.10", "<3.0d2", "1e3", ".GT.2.5d-1", ".LT.41000", "No", "n/a"]
+        vals = KROME_NONE + [">5.5e3", ".LE.1d4", ".GE.10", "<3.0d2", "1e3", ".GT.2.5d-1", ".LT.41000", "No", "n/a", "-9999", "-1", "-1d0", ".5d2", ">.5d2",
+                             ".LE..41d5", "0", "0.0"]
         reqs = [{"cmd": "kromebound", "value": v} for v in vals]
         try:
             ans = lean_driver(reqs)
